@@ -884,22 +884,84 @@ class VmapBatchHandler:
     def _handle_modular_vmap(self, vector_args, batch_axes, **params):
         """Handle batching in modular_vmap context."""
         axis_size = params["axis_size"]
-        # Remove dummy argument that modular_vmap injects
-        vector_args = tuple(vector_args[1:])
-        batch_axes = tuple(batch_axes[1:])
+        # Remove dummy argument that modular_vmap injects, and the constants of
+        # the staged keyless sampler (the rebound sampler is staged afresh).
+        num_consts = params["num_consts"]
+        vector_args = tuple(vector_args[1 + num_consts :])
+        batch_axes = tuple(batch_axes[1 + num_consts :])
 
-        # Compute new sample shape
         n = static_dim_length(batch_axes, vector_args)
-        outer_batch_dim = self._compute_outer_batch_dim(n, axis_size)
-        new_sample_shape = outer_batch_dim + self.config.sample_shape
 
-        # Create new sampler with updated sample shape
-        new_config = self.config.with_sample_shape(new_sample_shape)
-        result = create_sample_primitive(new_config)(*vector_args)
+        # Move mapped axes to the front and rebuild the (args, kwargs) structure
+        # of the original call so that keyword parameters keep their names.
+        lane_args = tuple(
+            arg if axis is None else jnp.moveaxis(arg, axis, 0)
+            for arg, axis in zip(vector_args, batch_axes)
+        )
+        lane_axes = tuple(None if axis is None else 0 for axis in batch_axes)
+        arg_tree = jtu.tree_unflatten(params["in_tree"], lane_args)
+        axes_tree = jtu.tree_unflatten(params["in_tree"], lane_axes)
+        if params["yes_kwargs"]:
+            (args, kwargs), (args_axes, kwargs_axes) = arg_tree, axes_tree
+        else:
+            (args, kwargs), (args_axes, kwargs_axes) = (arg_tree, {}), (axes_tree, {})
 
-        # Return with appropriate output axes
-        out_axes = (0 if n or axis_size else None,)
-        return (result,), out_axes
+        if n is None:
+            # No parameter is mapped: every lane has the same parameters, so the
+            # lanes are one extra (leading) sample dimension.
+            outer_batch_dim = self._compute_outer_batch_dim(n, axis_size)
+            new_sample_shape = outer_batch_dim + self.config.sample_shape
+            new_config = self.config.with_sample_shape(new_sample_shape)
+            result = create_sample_primitive(new_config)(*args, **kwargs)
+            out_axes = (0 if axis_size else None,)
+            return (result,), out_axes
+
+        # Some parameters are mapped: draw one independent sample per lane from
+        # that lane's parameters, whatever axis each parameter is mapped along
+        # and whatever the rank of the unmapped ones, and stack the lanes along
+        # axis 0 (the axis declared to the batching machinery below).
+        keyful_sampler = self.config.keyful_sampler
+        lane_sample_shape = self.config.sample_shape
+
+        def lanewise_sampler(key, *args, sample_shape=(), **kwargs):
+            # `sample_shape` holds dimensions added by enclosing
+            # transformations; they go in front of the lane axis. The site's
+            # own sample shape stays inside each lane.
+            def one_lane(lane_key, lane_args, lane_kwargs):
+                return keyful_sampler(
+                    lane_key, *lane_args, sample_shape=lane_sample_shape, **lane_kwargs
+                )
+
+            # jit: the staged sampler must accept typed and legacy uint32 keys
+            # alike (as TFP's own jitted samplers do).
+            @jax.jit
+            def draw(key, args, kwargs):
+                def lanes(k):
+                    return jax.vmap(one_lane, in_axes=(0, args_axes, kwargs_axes))(
+                        jrand.split(k, n), args, kwargs
+                    )
+
+                sampler = lanes
+                for size in reversed(sample_shape):
+                    sampler = (
+                        lambda inner, size: lambda k: jax.vmap(inner)(
+                            jrand.split(k, size)
+                        )
+                    )(sampler, size)
+                return sampler(key)
+
+            return draw(key, args, kwargs)
+
+        new_config = SamplerConfig(
+            keyful_sampler=lanewise_sampler,
+            name=self.config.name,
+            sample_shape=(),
+            support=self.config.support,
+            primitive=self.config.primitive,
+            primitive_params=dict(self.config.primitive_params),
+        )
+        result = create_sample_primitive(new_config)(*args, **kwargs)
+        return (result,), (0,)
 
     def _compute_outer_batch_dim(self, n, axis_size):
         """Compute the additional sample dimension from vmap."""
